@@ -17,8 +17,12 @@ input leaves the modelled domain (a vertex without three coordinates, a negative
   of face records, then the loop over the face records with its `tid` / `nid` guards).
   `parse_field` + `import_medit` (the `while data:` loop compiled to recursion on a fuel argument, every keyword branch: count line,
   vertex lines / `parse_field` block, `End` = break; bridged to the line-by-line automaton `stepMedit` of the hand model).
-  deque() / strip() / split() / dropping blank lines are the token-level glue.  `_import_stl_ascii` and the geogram codec are NOT
-  compiled (oracle / hand model).
+  deque() / strip() / split() / dropping blank lines are the token-level glue.  `_import_stl_ascii` and the rest of the geogram codec (`Chunk.__init__`,
+  `import_geogram_ascii`, `export_attribute`, `export_geogram_ascii`) are NOT compiled (oracle / hand chunk model).
+ATTRIBUTES (`geogram_ascii.py: import_attribute`): the loop over the elements, the row of element i (inner append loop or the equivalent
+slice), the EXACT comparison `val[0] != attr.default_value` and the scalar / vector stores -> Generated/C04Attr.lean over the sparse
+attribute model of Model/IOSourceAttr.lean (theorem: any default, every value reads back).
+WRAPPERS (`import_obj`, `import_off`, `import_tet`, `export_stl`, `import_stl`): which parser / writer is called on what -> Generated/C04Wrap.lean.
 GLUE (`mesh.py: load`, `save`): statement by statement into Generated/C04Glue.lean (`load`: read, raw switch, instantiate; `save`: order
 adjacency-for-geogram / re-wrap / ignore block / write; the guards of the ignore block are the table of Generated/C04Save.lean).
 
@@ -1472,3 +1476,134 @@ def glue():
            "  match ignore with\n  | none => m\n  | some ig => applyIgnoreWith Mouette.Generated.C04Save.ignoreRows ig m\n\n"
            "end Mouette.Generated.C04G\n")
     return txt, {"load": {"raw_switch": cond}, "save": {"order": ["adjacency for geogram", "re-wrap", "ignore block", "write_by_extension"]}}
+
+
+# ------------------------------------------------------------------------------------------------------------------
+# generated file: geogram_ascii.py import_attribute
+# ------------------------------------------------------------------------------------------------------------------
+def attr_import():
+    """`geogram_ascii.py: import_attribute(chk, attr)` -> Generated/C04Attr.lean.
+    Recognised: the loop `for i in range(len(chk.data) // chk.n_data)`, the row built by the inner `for j in range(n): val.append(chk.data[n*i + j])`
+    (or, equivalently, the slice `chk.data[n*i : n*(i+1)]` / `[n*i : n*i + n]`), an optional alias `n = chk.n_data`, and the two stores
+    `if n == 1 and val[0] != attr.default_value: attr[i] = val[0]` / `elif n > 1: attr[i] = val`.
+    The comparison with the default must be the exact `!=` (a tolerant or truthiness test is NOT the same thing: TranslateError)."""
+    tree, _ = T.load("mouette/mesh/io/geogram_ascii.py")
+    fn = T.find_def(tree, "import_attribute")
+    ps = [a.arg for a in fn.args.args]
+    if len(ps) != 2: raise TranslateError("import_attribute: expected (chk, attr)")
+    chk, attr = ps
+    body = norm_body(fn)
+    nd = {f"{chk}.n_data"}
+    while body and isinstance(body[0], ast.Assign) and isinstance(body[0].targets[0], ast.Name) and ast.unparse(body[0].value) in nd:
+        nd.add(body[0].targets[0].id); body = body[1:]
+    if len(body) != 1 or not isinstance(body[0], ast.For) or not isinstance(body[0].target, ast.Name) or body[0].orelse:
+        raise TranslateError("import_attribute: body is not one `for i in range(…)` loop")
+    loop = body[0]
+    i = loop.target.id
+    if not any(ast.unparse(loop.iter) == f"range(len({chk}.data) // {n})" for n in nd):
+        raise TranslateError(f"import_attribute: loop bound `{ast.unparse(loop.iter)}` is not `range(len(chk.data) // chk.n_data)`")
+    lb = list(loop.body)
+    # the row
+    val = None
+    if len(lb) >= 2 and isinstance(lb[0], ast.Assign) and isinstance(lb[0].targets[0], ast.Name) and ast.unparse(lb[0].value) == "[]" \
+            and isinstance(lb[1], ast.For) and isinstance(lb[1].target, ast.Name) and any(ast.unparse(lb[1].iter) == f"range({n})" for n in nd):
+        val, j = lb[0].targets[0].id, lb[1].target.id
+        ok = len(lb[1].body) == 1 and any(ast.unparse(lb[1].body[0]) in (f"{val}.append({chk}.data[{n} * {i} + {j}])", f"{val}.append({chk}.data[{i} * {n} + {j}])") for n in nd)
+        if not ok: raise TranslateError(f"import_attribute: inner loop is not `val.append(chk.data[n * i + j])`: `{ast.unparse(lb[1].body[0])[:60]}`")
+        lb = lb[2:]
+    elif lb and isinstance(lb[0], ast.Assign) and isinstance(lb[0].targets[0], ast.Name):
+        u = ast.unparse(lb[0].value)
+        if any(u in (f"{chk}.data[{n} * {i}:{n} * ({i} + 1)]", f"{chk}.data[{n} * {i}:{n} * {i} + {n}]") for n in nd):
+            val = lb[0].targets[0].id; lb = lb[1:]
+    if val is None: raise TranslateError("import_attribute: the row `val` of element i is not built in a recognised way")
+    if len(lb) != 1 or not isinstance(lb[0], ast.If): raise TranslateError("import_attribute: the stores are not one if/elif")
+    st = lb[0]
+    t = st.test
+    ok = (isinstance(t, ast.BoolOp) and isinstance(t.op, ast.And) and len(t.values) == 2 and any(ast.unparse(t.values[0]) == f"{n} == 1" for n in nd)
+          and ast.unparse(t.values[1]) == f"{val}[0] != {attr}.default_value" and len(st.body) == 1 and ast.unparse(st.body[0]) == f"{attr}[{i}] = {val}[0]")
+    if not ok:
+        raise TranslateError(f"import_attribute: scalar store is not `if n == 1 and val[0] != attr.default_value: attr[i] = val[0]` (found `if {ast.unparse(t)[:70]}`): "
+                             "only the exact comparison with the default keeps every value")
+    if not (len(st.orelse) == 1 and isinstance(st.orelse[0], ast.If) and not st.orelse[0].orelse and any(ast.unparse(st.orelse[0].test) == f"1 < {n}" for n in nd)
+            and len(st.orelse[0].body) == 1 and ast.unparse(st.orelse[0].body[0]) == f"{attr}[{i}] = {val}"):
+        raise TranslateError("import_attribute: vector store is not `elif n > 1: attr[i] = val`")
+    txt = ("import Mouette.Model.IOSourceAttr\nnamespace Mouette.Generated.C04A\nopen Mouette.IOS\nvariable {V : Type} [DecidableEq V]\n\n"
+           "/-- `geogram_ascii.py: import_attribute(chk, attr)`: `nData` = chk.n_data, `data` = chk.data -/\n"
+           "def importAttribute (nData : Nat) (data : List V) (attr : SAttr V) : SAttr V :=\n"
+           "  List.foldl (fun (attr : SAttr V) (i : Nat) =>\n"
+           "    let val : List V := List.foldl (fun (val : List V) (j : Nat) => val ++ [data.getD (nData * i + j) attr.dflt]) [] (List.range nData)\n"
+           "    if (nData == 1) && (val.getD 0 attr.dflt != attr.dflt) then attr.set i [val.getD 0 attr.dflt]\n"
+           "    else if decide (1 < nData) then attr.set i val\n"
+           "    else attr) attr (List.range (data.length / nData))\n\n"
+           "end Mouette.Generated.C04A\n")
+    return txt, {"import_attribute": {"row": "loop or slice", "default test": "val[0] != attr.default_value"}}
+
+
+# ------------------------------------------------------------------------------------------------------------------
+# generated file: the thin wrappers import_obj / import_off / import_tet / export_stl / import_stl
+# ------------------------------------------------------------------------------------------------------------------
+def wrappers():
+    """-> Generated/C04Wrap.lean.  `open(path).readlines()` -> the token-level file is the glue; everything else is read statement by
+    statement: which parser is called on the lines and returned; `export_stl`: guard, binary mode, `Binary_STL_Writer(fp).write(mesh)`;
+    `import_stl`: ascii test -> `_import_stl_ascii`, otherwise the external `stl_reader.read` whose (vertices, faces) are appended."""
+    out = ["import Mouette.Generated.C04Readers\nimport Mouette.Generated.C04Writers\nnamespace Mouette.Generated.C04Wrap\nopen Mouette.IO Mouette.IOS\nvariable {C : Type}\n"]
+    detail = {}
+    for rel, name, parser, lean, target in (("obj", "import_obj", "parse_obj_data", "importObj", "parseObj"), ("off", "import_off", "parse_off_data", "importOff", "parseOff"),
+                                            ("tet", "import_tet", "parse_tet_data", "importTet", "parseTet")):
+        tree, _ = T.load(f"mouette/mesh/io/{rel}.py")
+        fn = T.find_def(tree, name)
+        b = norm_body(fn)
+        p = fn.args.args[0].arg
+        ok = len(b) == 2 and isinstance(b[0], ast.With) and len(b[0].items) == 1 and isinstance(b[0].items[0].optional_vars, ast.Name) and len(b[0].body) in (1, 2) \
+            and isinstance(b[1], ast.Return) and isinstance(b[1].value, ast.Name)
+        if ok:
+            f = b[0].items[0].optional_vars.id
+            wb = [ast.unparse(x) for x in b[0].body]
+            arg = f"{f}.readlines()"
+            if len(wb) == 2:        # `lines = f.readlines()` first
+                m = re.fullmatch(rf"(\w+) = {f}\.readlines\(\)", wb[0])
+                ok = m is not None
+                if ok: arg = m.group(1)
+            ok = ok and ast.unparse(b[0].items[0].context_expr).replace(" ", "") == f"open({p},'r')" and wb[-1] == f"{b[1].value.id} = {parser}({arg})"
+        if not ok: raise TranslateError(f"{name}: body is not `with open(path, 'r') as f: out = {parser}(f.readlines())` / `return out`")
+        out.append(f"/-- `{rel}.py: {name}`: the lines of the file handed to `{parser}` -/\ndef {lean} (cd : Codec C) (file : File) : Option (Raw C) := Mouette.Generated.C04R.{target} cd file\n")
+        detail[name] = parser
+    tree, _ = T.load("mouette/mesh/io/stl.py")
+    # export_stl
+    fn = T.find_def(tree, "export_stl")
+    mesh, path = (a.arg for a in fn.args.args)
+    b = norm_body(fn)
+    if b and isinstance(b[0], ast.If) and ast.unparse(b[0].test) == f"not hasattr({mesh}, 'faces')" and all(isinstance(x, ast.Return) and x.value is None for x in b[0].body) and not b[0].orelse:
+        b = b[1:]           # a RawMeshData always has a `faces` container
+    ok = len(b) == 1 and isinstance(b[0], ast.With) and isinstance(b[0].items[0].optional_vars, ast.Name) and len(b[0].body) == 2
+    if ok:
+        fp = b[0].items[0].optional_vars.id
+        ok = ast.unparse(b[0].items[0].context_expr).replace(" ", "") == f"open({path},'wb')"
+        m1 = re.fullmatch(rf"(\w+) = Binary_STL_Writer\({fp}\)", ast.unparse(b[0].body[0]))
+        ok = ok and m1 is not None and ast.unparse(b[0].body[1]) == f"{m1.group(1)}.write({mesh})"
+    if not ok: raise TranslateError("export_stl: body is not `with open(path, 'wb') as fp: writer = Binary_STL_Writer(fp); writer.write(mesh)`")
+    out.append("/-- `stl.py: export_stl`: a fresh `Binary_STL_Writer` on the binary file, `write(mesh)` -/\n"
+               "def exportStl (cd : Codec C) (m : Raw C) : Option File := Mouette.Generated.C04W.exportStl cd m\n")
+    # import_stl
+    fn = T.find_def(tree, "import_stl")
+    path = fn.args.args[0].arg
+    b = norm_body(fn)
+    if len(b) == 6 and isinstance(b[0], ast.If) and not b[0].orelse:        # `if ascii: return …` followed by the binary branch without `else`
+        b0 = copy.copy(b[0]); b0.orelse = b[1:]; b = [b0]
+    ok = len(b) == 1 and isinstance(b[0], ast.If) and ast.unparse(b[0].test) == f"is_stl_ascii({path})" and len(b[0].body) == 1 \
+        and ast.unparse(b[0].body[0]) == f"return _import_stl_ascii({path})" and len(b[0].orelse) == 5
+    if ok:
+        e = [ast.unparse(x) for x in b[0].orelse]
+        m0 = re.fullmatch(rf"(\w+), (\w+) = stl_reader\.read\({path}\)", e[0])
+        m1 = re.fullmatch(r"(\w+) = RawMeshData\(\)", e[1])
+        ok = m0 is not None and m1 is not None
+        if ok:
+            o = m1.group(1)
+            ok = e[2] == f"{o}.vertices += list({m0.group(1)})" and e[3] == f"{o}.faces += list({m0.group(2)})" and e[4] == f"return {o}"
+    if not ok: raise TranslateError("import_stl: body is not `if is_stl_ascii(path): return _import_stl_ascii(path)` / `else: vertices, faces = stl_reader.read(path); …`")
+    out.append("/-- `stl.py: import_stl`: `ascii` = is_stl_ascii(path), `asciiResult` = what `_import_stl_ascii` returns, `ext` = the (vertices, faces) of the\n"
+               "external `stl_reader.read` (`none`: it raised) -/\n"
+               "def importStl (ascii : Bool) (asciiResult : Option (Raw C)) (ext : Option (List (C × C × C) × List (List Nat))) : Option (Raw C) :=\n"
+               "  if ascii then asciiResult\n  else match ext with\n    | none => none\n    | some (vs, fs) => some { verts := vs, faces := fs }\n")
+    out.append("end Mouette.Generated.C04Wrap\n")
+    return "\n".join(out), detail
